@@ -139,13 +139,17 @@ def make_queue_module(sched):
     class Queue:
         def __init__(self, maxsize=0):
             sched.yield_("NewQueue")
+            self.maxsize = maxsize or 0     # a bounded queue blocks put() while it is full
             self.items = []
             self.unfinished_tasks = 0
             sched.queues.append(self)
             sched.note("NewQueue")
 
         def put(self, item, block=True, timeout=None):
-            sched.yield_("Put")
+            if self.maxsize > 0 and block and timeout is None:
+                sched.yield_("Put", lambda: len(self.items) < self.maxsize)
+            else:
+                sched.yield_("Put")
             self.items.append(item)
             self.unfinished_tasks += 1
             sched.note("Put %s" % getattr(item, "_kv_id", "?"))
@@ -234,8 +238,12 @@ def make_threading_module(sched, flag_names, worker_name="worker"):
                 raise RuntimeError("cannot join thread before it is started")
             if ct is sched.me():
                 raise RuntimeError("cannot join current thread")
-            sched.yield_("ThreadJoin", lambda: ct.done)
-            sched.note("ThreadJoin")
+            if timeout is None:
+                sched.yield_("ThreadJoin", lambda: ct.done)
+                sched.note("ThreadJoin")
+            else:
+                sched.yield_("ThreadJoin")              # a join time-out may fire at any moment
+                sched.note("ThreadJoin" if ct.done else "ThreadJoinTimeout")
 
         def is_alive(self):
             ct = object.__getattribute__(self, "_kv_ct")
